@@ -177,6 +177,7 @@ Definition show_cerr (e : cerr) : bytes :=
   | ERegexp => b "regexp"
   | EUsage m => b "usage:" ++ hex m
   | EConfigMissing => b "cfgmissing"
+  | EConfigSyntax => b "cfgsyntax"
   | EWrite => b "write"
   | EUnmodelled why => b "unmodelled:" ++ hex why
   end.
